@@ -118,6 +118,10 @@ type NexusOpts struct {
 	InlineEnd bool `json:"inline_end,omitempty"`
 	// TwoBlocks: the trees are spread over two TREES blocks (two tree files spliced under one header)
 	TwoBlocks bool `json:"two_blocks,omitempty"`
+	// SameNames: every TREE statement carries the same tree name ("rep")
+	SameNames bool `json:"same_names,omitempty"`
+	// NoEqual > 0: the TREE statement number NoEqual (from 1) lacks its '=' (not a valid statement)
+	NoEqual int `json:"no_equal,omitempty"`
 }
 
 // Nexus writes the trees as a Nexus document. All trees must have the same tip names when
@@ -198,7 +202,14 @@ func Nexus(ms []*ref.Node, o NexusOpts) string {
 			b.WriteString("  [ comment before a tree ]\n")
 		}
 		s := ref.Write(mm)
-		b.WriteString("  " + kw("TREE") + " tree" + strconv.Itoa(i) + " = " + s + "\n")
+		name, eq := "tree"+strconv.Itoa(i), " = "
+		if o.SameNames {
+			name = "rep"
+		}
+		if o.NoEqual == i+1 {
+			eq = " "
+		}
+		b.WriteString("  " + kw("TREE") + " " + name + eq + s + "\n")
 		if o.TwoBlocks && len(ms) >= 2 && i == (len(ms)-1)/2 {
 			b.WriteString(kw("END") + ";\n" + kw("BEGIN TREES") + ";\n")
 		}
